@@ -549,17 +549,14 @@ pub fn oracle_in(c: &CurveCase, cur: &Result<Curve, String>, out: &mut Out, ctx:
                 }
                 return Some(false);
             }
+            // the distance IS the requested length, bit for bit -- also when L is only an ulp or
+            // less than f64::EPSILON away from the natural length (the class of the repaired D9)
+            let diff = (natural - l).abs();
+            if diff > 0.0 && diff < f64::EPSILON {
+                out.count("oracle:within-epsilon-of-natural");
+            }
             if cv.dist().to_bits() != l.to_bits() {
-                let diff = (natural - l).abs();
-                if diff > 0.0 && diff < f64::EPSILON && cv.dist().to_bits() == natural.to_bits() {
-                    out.count("oracle:D9");
-                    // Out keeps at most 200 failures: a known class must not crowd out others
-                    if out.dist.get("oracle:D9").copied().unwrap_or(0) <= 25 {
-                        out.fail("D9", &d, &format!("requested {:e}, natural {:e}, distance {:e}", l, natural, cv.dist()));
-                    }
-                } else {
-                    out.fail("", &d, &format!("distance {:e} is not the requested {:e} (natural {:e})", cv.dist(), l, natural));
-                }
+                out.fail("", &d, &format!("distance {:e} is not the requested {:e} (natural {:e})", cv.dist(), l, natural));
                 return Some(false);
             }
             if natural.to_bits() == l.to_bits() {
@@ -733,10 +730,17 @@ pub fn generate(tier: &str, seed: u64, out: &mut Out) {
         run_case(&CurveCase { mode, pts: pts.clone(), len }, "corpus", true, out);
         run_case(&CurveCase { mode: 1, pts, len }, "corpus", true, out);
     }
-    // D9: requested length within 2.2e-16 of the natural one
+    // formerly D9 (repaired): requested length within 2.2e-16 of the natural one but different
+    // from it -- the distance must be the requested length
     {
         let pts = vec![Cp { x: 0.0, y: 0.0, ty: 3, deg: 0 }, Cp { x: 1e-20, y: 0.0, ty: 0, deg: 0 }];
         run_case(&CurveCase { mode: 0, pts, len: Some(1e-17) }, "corpus", true, out);
+        for ty in [2u8, 3] {
+            let pts = vec![Cp { x: 0.0, y: 0.0, ty, deg: 0 }, Cp { x: 0.0, y: 1.0, ty: 0, deg: 0 }];
+            for len in [0.9999999999999999, 1.0000000000000002, 1.0, 1.0 - 1e-16, 1.0 + 2e-16] {
+                run_case(&CurveCase { mode: 0, pts: pts.clone(), len: Some(len) }, "corpus", true, out);
+            }
+        }
     }
     // D14: ill-conditioned three-point perfect curve -> NaN path, NaN lengths
     {
